@@ -12,8 +12,14 @@ DySeq(js) == [i \in DOMAIN js |-> Dy(js[i])]
 EffHi(node, hi) == [i \in DOMAIN hi |-> IF <<node, i>> \in AdvisoryUpper THEN <<>> ELSE hi[i]]
 SB(node, hi) == [i \in DOMAIN hi |-> UpperSlackBits(node, i)]
 
+(* colours with integer components: the documented range is 0 to the largest value of the type *)
+IsIntT(t) == t \in {"u8", "u16", "u32"}
+IntMax(t) == CASE t = "u8" -> DyFromInt(255) [] t = "u16" -> DyFromInt(65535) [] t = "u32" -> DySub(DyPow2(32), DyFromInt(1))
+IntAccessorsOk(e) == \A i \in DOMAIN e.lo : e.lo[i] # <<>> /\ DyIsZero(Dy(e.lo[i])) /\ e.hi[i] # <<>> /\ DyEq(Dy(e.hi[i]), IntMax(e.t))
+
 BoundsWhy(e) ==
   IF e.panic # 0 THEN "panic"
+  ELSE IF IsIntT(e.t) /\ ~IntAccessorsOk(e) THEN "max-accessor-differs-from-documentation"
   ELSE IF ~(AllFin(e.clamp) /\ AllFin(e.clamp_assign) /\ AllFin(e.slice) /\ AllFin(e.clamp2)) THEN "non-finite"
   ELSE LET c == DySeq(e["in"])  cl == DySeq(e.clamp)
            hi == EffHi(e.node, e.hi)  sb == SB(e.node, e.hi)
